@@ -113,6 +113,13 @@ def translate_job(args: Dict[str, Any]) -> Dict[str, Any]:
         for m in mons:
             m(args, "before", state)
         exe = executor_for(backend)
+        # optional earlier queries handled by the SAME executor object (their outcome is not the subject)
+        for k, pq in enumerate(args.get("pre_queries", [])):
+            try:
+                exe.write_cpp_files(exe.apply_ast_transformations(parse_query(pq)), out.parent / (out.name + f"_pre{k}"))
+            except BaseException:  # noqa: B036
+                pass
+            (out.parent / (out.name + f"_pre{k}")).mkdir(exist_ok=True)
         info = exe.write_cpp_files(exe.apply_ast_transformations(a), out)
         res["status"] = "ok"
         res["info"] = {
